@@ -98,9 +98,32 @@ def base_tree(rng):
         {"path": ".well-known", "kind": "dir"}, {"path": ".well-known/x.txt", "data": "wk\n"},
         {"path": "PYGOPHERD-HTTPPROTO-ICONS", "kind": "dir"}, {"path": "GEMINI-QUERY", "kind": "dir"},
     ]
+    have = {e["path"] for e in tree}
+    for name in feature_dir_names():
+        if name not in have:
+            tree.append({"path": name, "kind": "dir"})
+            for fn in ("default.html", "http.html", "x.txt"):
+                tree.append({"path": name + "/" + fn, "data": "feature file %s\n" % fn})
     for e in tree:
         e["mtime"] = t
     return tree
+
+
+def feature_dir_names():
+    """Dot-names the server's own source mentions as string literals ("/.cap/", "/.icons", ...): directories that some
+    server-side feature looks into.  They exist in the content tree, so that '..' components behind them resolve."""
+    import glob
+    import re
+    from common import REPO
+    names = set()
+    for f in glob.glob(os.path.join(REPO, "pygopherd", "**", "*.py"), recursive=True):
+        try:
+            text = open(f, errors="replace").read()
+        except OSError:
+            continue
+        for m in re.finditer(r"""["']/?(\.[A-Za-z][\w-]{1,30})/?["']""", text):
+            names.add(m.group(1))
+    return sorted(names)
 
 
 def outside_variant(v):
@@ -122,6 +145,8 @@ def outside_variant(v):
         {"path": "rootdir1", "kind": "dir"}, {"path": "rootdir1/c.txt", "data": f"SIBLING-{tag}\n"},
         {"path": "root-private", "kind": "dir"}, {"path": "root-private/secret.txt", "data": f"PRIV-{tag}\n"},
         {"path": "mail.mbox", "data": MBOX.replace("one", tag)},
+        {"path": "secret.html", "data": f"<html>OUTSIDE-HTML-{tag}</html>\n"}, {"path": "index.html", "data": f"<html>OUTSIDE-INDEX-{tag}</html>\n"},
+        {"path": "default.html", "data": f"<html>OUTSIDE-DEFAULT-{tag}</html>\n"}, {"path": "secret", "data": f"OUTSIDE-NOEXT-{tag}\n"},
         {"path": "inner.zip", "data": _small_zip(f"OUTSIDE-ZIP-{tag}\n")},
         {"path": "secretdir/nested.zip", "data": _small_zip(f"OUTSIDE-NESTED-{tag}\n")},
         {"path": "deep.zip", "data": _small_zip(f"OUTSIDE-DEEP-{tag}\n")},
@@ -415,7 +440,8 @@ def run(tier):
     for proto in gen.PROTOCOLS:
         for s in ["URL:../../secret.txt://x", "/URL:../../secret://x", "URL:http://x/../../secret.txt", "/URL:..%2f..%2fsecret.txt://h/",
                   "URL:/../secret.txt://", "/URL:.icons/../../secret.txt://x", "URL:../secretdir/x://y", "/URL:http://../../secret.txt",
-                  "URL:..://..", "/URL:dir1/../../secret.txt://x/y", "URL:file:///../../secret.txt", "/URL:../root2/secret://x"]:
+                  "URL:..://..", "/URL:dir1/../../secret.txt://x/y", "URL:file:///../../secret.txt", "/URL:../root2/secret://x",
+                  "URL:../../secret://x", "/URL:../../index://x", "URL:../../default://", "/URL:../secret://x", "URL:../../secretdir/x://y"]:
             data, tls = gen.request_bytes(proto, s, gplus=rng.choice(["+", "!", "$"]))
             requests.append((proto, s, 1, False, data, tls, False))
     # in-band prefixes the protocols interpret themselves, followed by climbers (these paths may bypass handler selection)
